@@ -512,21 +512,39 @@ func genCase(t *rapid.T, transports []string) Case {
 		}
 		c.Req = append(c.Req, h)
 	}
+	c.Fail = rapid.Bool().Draw(t, "fail")
 	c.Header = genKVs(t, "h")
-	// header and trailer keys are kept disjoint: a trailers-only response has
-	// a single header block in which equal keys necessarily merge
+	// In a trailers-only response (failing unary RPC) there is a single header
+	// block in which equal keys necessarily merge, so header and trailer keys
+	// are kept disjoint there; a successful RPC may reuse a header key as a
+	// trailer key (often, to make that case frequent).
 	hk := map[string]bool{}
 	for _, kv := range c.Header {
 		hk[kv.Key] = true
 	}
 	for _, kv := range genKVs(t, "t") {
-		if !hk[kv.Key] || reserved[kv.Key] {
+		if !c.Fail || !hk[kv.Key] || reserved[kv.Key] {
 			c.Trailer = append(c.Trailer, kv)
+		}
+	}
+	if !c.Fail && len(c.Header) > 0 && rapid.IntRange(0, 2).Draw(t, "reuseKey") == 0 {
+		src := c.Header[rapid.IntRange(0, len(c.Header)-1).Draw(t, "reuseIdx")]
+		if !reserved[src.Key] {
+			dup := false
+			for _, kv := range c.Trailer {
+				dup = dup || kv.Key == src.Key
+			}
+			if !dup {
+				kv := KV{Key: src.Key}
+				for _, v := range src.Vals {
+					kv.Vals = append(kv.Vals, append([]byte("t:"), v...))
+				}
+				c.Trailer = append(c.Trailer, kv)
+			}
 		}
 	}
 	c.SendHeader = rapid.Bool().Draw(t, "sendHeader")
 	c.TrailerLate = rapid.Bool().Draw(t, "trailerLate")
-	c.Fail = rapid.Bool().Draw(t, "fail")
 	return c
 }
 
